@@ -246,14 +246,30 @@ def cal_probe(detector, **kwargs) -> None:
     detector.image.array = np.asarray(np.clip(np.floor(data), 0, 2**31), dtype="uint32")
 
 
-def c19_fill(detector, a: float = 0.0, b: float = 0.0) -> None:
+def c19_fill(detector, a: float = 0.0, b: float = 0.0, as_particles: bool = False, count_scale: float = 0.0) -> None:
     """C19: fill all five buckets with distinct, parameter-dependent, position-dependent values:
-    bucket[y, x] = base_bucket + 16*a + b + (y*cols + x)/64   (image: uint16 of 5000 + 16*a + b + y*cols + x)"""
+    bucket[y, x] = base_bucket + off + (y*cols + x)/64   (image: uint16 of 5000 + off + y*cols + x)
+    with off = 16*a + b + count_scale * pipeline_count.
+    `as_particles`: the charge bucket is filled partly as an array (1000 per pixel) and, for the rest, as one
+    charge cluster at the centre of every pixel (the bucket's value is the same)."""
     rows, cols = detector.geometry.shape
     idx = np.arange(rows * cols, dtype=float).reshape(rows, cols)
     off = 16.0 * float(a) + float(b)
+    if count_scale:
+        off += float(count_scale) * float(detector.pipeline_count)
     detector.photon.array = 1000.0 + off + idx / 64.0
-    detector.charge.add_charge_array(2000.0 + off + idx / 64.0)
+    if as_particles:
+        geo = detector.geometry
+        detector.charge.add_charge_array(np.full((rows, cols), 1000.0))
+        yy, xx = np.meshgrid(np.arange(rows), np.arange(cols), indexing="ij")
+        n = rows * cols
+        zeros = np.zeros(n)
+        detector.charge.add_charge(
+            particle_type="e", particles_per_cluster=(1000.0 + off + idx / 64.0).ravel(), init_energy=zeros,
+            init_ver_position=(yy.ravel() + 0.5) * geo.pixel_vert_size, init_hor_position=(xx.ravel() + 0.5) * geo.pixel_horz_size,
+            init_z_position=zeros, init_ver_velocity=zeros, init_hor_velocity=zeros, init_z_velocity=zeros)
+    else:
+        detector.charge.add_charge_array(2000.0 + off + idx / 64.0)
     detector.pixel.array = 3000.0 + off + idx / 64.0
     detector.signal.array = 4000.0 + off + idx / 64.0
     detector.image.array = np.asarray(5000.0 + off + idx, dtype=np.uint16)
